@@ -272,6 +272,9 @@ class SA_OO_Solver(SA_VQESolver):
                     ij_list.append([i, j])
 
         n_params = len(ij_list)
+        # No non-redundant rotation (e.g. every orbital is active): the orbital step is the identity
+        if n_params == 0:
+            return np.eye(n_mos)
         hess = np.zeros((n_params, n_params))
         dedx = np.zeros(n_params)
         for p1, (i, j) in enumerate(ij_list):
